@@ -30,7 +30,11 @@ def main():
             for chk in [prop] + [c for c in ALSO.get(mid, []) if c != prop]:
                 if not os.path.exists('/verif/checks/%s.json' % chk):
                     continue
+                ev = '/verif/evidence/%s.json' % chk   # the evidence file belongs to runs on /repo itself: keep it
+                saved = open(ev).read() if os.path.exists(ev) else None
                 rc, out = sh("/verif/check %s quick" % chk, env=dict(ENV, VERIF_REPO=wt))
+                if saved is not None:
+                    open(ev, 'w').write(saved)
                 labels = sorted(set(re.findall(r"label=(\S+)", out)))
                 verdict = {0: "MISSED", 1: "DETECTED", 2: "INCONCLUSIVE"}.get(rc, "rc=%d" % rc)
                 results.append((chk, verdict, labels[:3]))
